@@ -62,8 +62,8 @@ func (g *simGen) NewV4() (uuid.UUID, error) {
 	return u, nil
 }
 
-func (g *simGen) NewV1() (uuid.UUID, error)             { return g.real.NewV1() }
+func (g *simGen) NewV1() (uuid.UUID, error)              { return g.real.NewV1() }
 func (g *simGen) NewV3(ns uuid.UUID, n string) uuid.UUID { return g.real.NewV3(ns, n) }
 func (g *simGen) NewV5(ns uuid.UUID, n string) uuid.UUID { return g.real.NewV5(ns, n) }
-func (g *simGen) NewV6() (uuid.UUID, error)             { return g.real.NewV6() }
-func (g *simGen) NewV7() (uuid.UUID, error)             { return g.real.NewV7() }
+func (g *simGen) NewV6() (uuid.UUID, error)              { return g.real.NewV6() }
+func (g *simGen) NewV7() (uuid.UUID, error)              { return g.real.NewV7() }
